@@ -48,7 +48,9 @@ def selftest(ctx, trace, events):
             b = ev[i]["tok"]["blocks"][-1]
             b["ver"] = 1 - b["ver"]
         elif kind == "drop-event":
-            del ev[i]
+            # drop a build whose token is used by the next event (otherwise the rest can still be a valid trace)
+            cands = [j for j, e in enumerate(ev[:-1]) if e.get("ev") == "build" and ev[j + 1].get("from") is not None and ev[j + 1].get("ev") != "reset"]
+            del ev[rnd.choice(cands)]
         else:
             ev[i]["tok"]["blocks"][-1]["nk"]["id"] = "someone-else"
         path = os.path.join(ctx.work, "selftest-%s.ndjson" % kind)
